@@ -15,7 +15,7 @@ use std::rc::Rc;
 pub static ENGINE: Engine = Engine {
     prop: "C13",
     level: "model_checking",
-    rule: "explicit-state exploration of the hidden state of BDDEnv<usize> for k=2 variables (ids 1,5): state = set of interned structures = child-closed subset of the 14 possible internal nodes (ALL such subsets are enumerated; each is built in a fresh real environment by a history of public mk_choice calls from the initial table, and the build is checked to yield exactly that table); transitions = every public operation (var, mk_const, not, 8 binary, ite, exists/all/exists_impl x variable lists <= 2, aln/amn/exn x operand lists <= 2 x n in -1..3, count_* x lists <= 1, model, infer, retain x 3 filters, clean, find, simplify, fp x 3 transformers, mk_choice with ordered arguments) on every tuple of currently interned nodes. After every transition: result == the same call in a minimal fresh environment (and == canon of the expected function where defined); every previously held handle unchanged; every table key equals its value, every child pointer of every table node and the result are Rc::ptr_eq to the table entry of the same structure; both leaves present; size() = number of keys; table only grows. Abstraction check: for every state-changing edge S -op1-> S1 the real post-history environment and build(S1) give identical results and identical successor tables for a set of follow-up operations. Long-lived histories: every sequence of 2 and 3 operations (not, all 8 binary connectives (3 at the third step in quick), exists, model, retain with both filters, clean on a pool of six functions plus earlier results; only the results are held, the operands are looked up in the table) on ONE environment, each result compared with a fresh environment, all earlier results re-inspected and the table invariants checked after every step. Lean environments: for EVERY function of four variables a fresh environment in which only the function (built by an ite cascade) is held, then seven operations each executed twice: same node both times, canonical, every reachable sub-diagram is the table's entry. Definitions: every sequence <= 4 of {eval, define f, define g} on one ParsedFormula for eight texts with references; each evaluation must equal that of a fresh formula that got the same definitions first. Big table: one environment grown to ~66 000 nodes (1 200 variables, all 65 536 functions of four variables) with sharing and recomputation checks at checkpoints. Formula level: every sequence <= 3 of 12 formulas through ParsedFormula::new_with_env on one shared environment, once with an explicit ordering and once with each parse's own default ordering, vs fresh environments (variable lists by name and id, diagram) with re-inspection of all earlier results. distinct = distinct (state, operation, operands)",
+    rule: "explicit-state exploration of the hidden state of BDDEnv<usize> for k=2 variables (ids 1,5): state = set of interned structures = child-closed subset of the 14 possible internal nodes (ALL such subsets are enumerated; each is built in a fresh real environment by a history of public mk_choice calls from the initial table, and the build is checked to yield exactly that table); transitions = every public operation (var, mk_const, not, 8 binary, ite, exists/all/exists_impl x variable lists <= 2, aln/amn/exn x operand lists <= 2 x n in -1..3, count_* x lists <= 1, model, infer, retain x 3 filters, clean, find, simplify, fp x 3 transformers, mk_choice with ordered arguments) on every tuple of currently interned nodes. After every transition: result == the same call in a minimal fresh environment (and == canon of the expected function where defined); every previously held handle unchanged; every table key equals its value, every child pointer of every table node and the result are Rc::ptr_eq to the table entry of the same structure; both leaves present; size() = number of keys; table only grows. Abstraction check: for every state-changing edge S -op1-> S1 the real post-history environment and build(S1) give identical results and identical successor tables for a set of follow-up operations. Long-lived histories: every sequence of 2 and 3 operations (not, all 8 binary connectives (3 at the third step in quick), exists, model, retain with both filters, clean on a pool of six functions plus earlier results; only the results are held, the operands are looked up in the table) on ONE environment, each result compared with a fresh environment, all earlier results re-inspected and the table invariants checked after every step. Transient operands: every connective on every pair of functions of three variables handed over as short-lived copies (addresses reused) in an environment holding their interned twins. Lean environments: for EVERY function of four variables a fresh environment in which only the function (built by an ite cascade) is held, then seven operations each executed twice: same node both times, canonical, every reachable sub-diagram is the table's entry. Definitions: every sequence <= 4 of {eval, define f, define g} on one ParsedFormula for eight texts with references; each evaluation must equal that of a fresh formula that got the same definitions first. Big table: one environment grown to ~66 000 nodes (1 200 variables, all 65 536 functions of four variables) with sharing and recomputation checks at checkpoints. Formula level: every sequence <= 3 of 12 formulas through ParsedFormula::new_with_env on one shared environment, once with an explicit ordering and once with each parse's own default ordering, vs fresh environments (variable lists by name and id, diagram) with re-inspection of all earlier results. distinct = distinct (state, operation, operands)",
     assumptions: &["state abstraction = table contents (validated by the abstraction check: equal tables have equal futures)", "k=2 for the complete exploration; larger variable sets only through the formula-level sequences"],
     max_shards: 64,
     run,
@@ -1178,6 +1178,11 @@ fn run(ctx: &mut Ctx) {
     }
     api_histories(ctx, &w, &mut memo);
     lean_recompute(ctx);
+    // operands that are short-lived copies (addresses are reused from case to case) in an
+    // environment that holds their interned twins: results must not depend on earlier calls
+    if let Ok(spt) = Space::<usize>::by_interning(&[2, 3, 9]) {
+        crate::closure::sweep_api(ctx, &spt, "transient", crate::closure::Oracle { semantic: true, canonical: true }, crate::closure::IteMode::CondInit, TAG);
+    }
     if ctx.shard == 0 {
         big_table_history(ctx);
     }
@@ -1206,6 +1211,7 @@ fn replay(ctx: &mut Ctx, case: &Value) {
                 ctx.violation(v.key, v.what, v.replay);
             }
         }
+        Some("api") => crate::closure::replay_api(ctx, case, crate::closure::Oracle { semantic: true, canonical: true }, TAG),
         Some("history") => {
             let w = World::new();
             let mut memo = Memo { fresh: FxHashMap::default() };
